@@ -3,6 +3,9 @@ import Mathlib.LinearAlgebra.Matrix.NonsingularInverse
 import Mathlib.Algebra.BigOperators.Fin
 import PV.Model.Gls
 import Mathlib.Data.List.Forall2
+import Mathlib.Data.List.Perm.Basic
+import Mathlib.Data.List.Nodup
+import Mathlib.Data.String.Basic
 
 /-
   PV.Proofs.GlsBridge — the list-of-lists matrices of PV/Model/Gls.lean are Mathlib matrices: `dotR`, `mulVec`,
@@ -271,5 +274,74 @@ theorem iftSens_is_inverse (H M X : Mat) (n k : Nat) (hH : Shaped H n n) (hM : S
     rw [← Matrix.mul_assoc, Matrix.nonsing_inv_mul _ hu, Matrix.one_mul]
   rw [key, Matrix.mul_neg] at h1
   exact h1
+
+
+/-! ### assembling the problem: data sets stacked by key -/
+
+
+theorem perm_insertByKey (b : Block) : ∀ l : List Block, (insertByKey b l).Perm (b :: l)
+  | [] => List.Perm.refl _
+  | c :: cs => by
+    unfold insertByKey
+    split
+    · exact List.Perm.refl _
+    · exact ((perm_insertByKey b cs).cons c).trans (List.Perm.swap b c cs)
+
+theorem perm_sortBlocks (bs : List Block) : (sortBlocks bs).Perm bs := by
+  unfold sortBlocks
+  suffices H : ∀ (l acc : List Block), (l.foldl (fun acc b => insertByKey b acc) acc).Perm (l ++ acc) by
+    simpa using H bs []
+  intro l
+  induction l with
+  | nil => intro acc; simp
+  | cons b l ih =>
+    intro acc
+    simp only [List.foldl_cons, List.cons_append]
+    refine (ih _).trans ?_
+    exact (List.Perm.append_left l (perm_insertByKey b acc)).trans List.perm_middle
+
+theorem pairwise_insertByKey (b : Block) : ∀ l : List Block, l.Pairwise (fun x y => x.key ≤ y.key) →
+    (insertByKey b l).Pairwise (fun x y => x.key ≤ y.key)
+  | [], _ => by simp [insertByKey]
+  | c :: cs, h => by
+    unfold insertByKey
+    rw [List.pairwise_cons] at h
+    split
+    · rename_i hbc
+      refine List.Pairwise.cons ?_ (List.Pairwise.cons h.1 h.2)
+      intro a ha
+      rcases List.mem_cons.mp ha with rfl | ha
+      · exact hbc
+      · exact le_trans hbc (h.1 a ha)
+    · rename_i hbc
+      have hcb : c.key ≤ b.key := le_of_lt (not_le.mp hbc)
+      refine List.Pairwise.cons ?_ (pairwise_insertByKey b cs h.2)
+      intro a ha
+      rcases List.mem_cons.mp ((perm_insertByKey b cs).subset ha) with rfl | ha
+      · exact hcb
+      · exact h.1 a ha
+
+theorem pairwise_sortBlocks (bs : List Block) : (sortBlocks bs).Pairwise (fun x y => x.key ≤ y.key) := by
+  unfold sortBlocks
+  suffices H : ∀ (l acc : List Block), acc.Pairwise (fun x y => x.key ≤ y.key) →
+      (l.foldl (fun acc b => insertByKey b acc) acc).Pairwise (fun x y => x.key ≤ y.key) from H bs [] List.Pairwise.nil
+  intro l
+  induction l with
+  | nil => intro acc h; simpa
+  | cons b l ih => intro acc h; exact ih _ (pairwise_insertByKey b acc h)
+
+/-- the order in which the data sets are handed over does not matter: they are stacked by key -/
+theorem sortBlocks_perm (bs bs' : List Block) (hp : bs.Perm bs') (hnd : (bs.map (·.key)).Nodup) :
+    sortBlocks bs = sortBlocks bs' := by
+  have h1 : (sortBlocks bs).Perm (sortBlocks bs') := (perm_sortBlocks bs).trans (hp.trans (perm_sortBlocks bs').symm)
+  have hnd' : ((sortBlocks bs).map (·.key)).Nodup := ((perm_sortBlocks bs).map _).nodup_iff.mpr hnd
+  refine List.Perm.eq_of_pairwise ?_ (pairwise_sortBlocks bs) (pairwise_sortBlocks bs') h1
+  intro a b ha hb hab hba
+  exact List.inj_on_of_nodup_map hnd' ha (h1.symm.subset hb) (le_antisymm hab hba)
+
+theorem assemble_perm (bs bs' : List Block) (npar : Nat) (priors : List (Nat × Rat × Rat)) (hp : bs.Perm bs')
+    (hnd : (bs.map (·.key)).Nodup) : assemble bs npar priors = assemble bs' npar priors := by
+  unfold assemble
+  rw [sortBlocks_perm bs bs' hp hnd]
 
 end PV.Gls
